@@ -545,7 +545,7 @@ func runC09(c *Ctx) {
 		g := c.G(f)
 		ok := false
 		for _, ex := range g.Returns() {
-			if ex.Return != nil && len(core.CallsTo(sinfo, ex.Return, false, "server.blobUpload.Wait")) == 1 {
+			if ex.Return != nil && len(ex.Return.Results) == 1 && len(core.CallsTo(sinfo, g.ReturnedExpr(ex, 0), false, "server.blobUpload.Wait")) == 1 {
 				ok = true
 			}
 		}
